@@ -474,24 +474,89 @@ func checkVerifier(c *Ctx, fn *ssa.Function) {
 			}
 		}
 	}
-	if em == nil {
+	// ... or the padding written in place: em := make([]byte, k); copy(em[k-min(len(m),k):], m)
+	var emV ssa.Value
+	var emIns ssa.Instruction
+	var emSrc ssa.Value
+	var padFn *ssa.Function
+	if em != nil {
+		emV, emIns, emSrc, padFn = em, em, em.Call.Args[0], em.Call.StaticCallee()
+	} else {
+		for _, b := range fn.Blocks {
+			for _, ins := range b.Instrs {
+				ms, ok := ins.(*ssa.MakeSlice)
+				if !ok || ms.Len != k {
+					continue
+				}
+				for _, call := range callsIn(fn) {
+					cp, isCall := call.(*ssa.Call)
+					if bi, isB := call.Common().Value.(*ssa.Builtin); !isCall || !isB || bi.Name() != "copy" {
+						continue
+					}
+					sl, isSl := cp.Call.Args[0].(*ssa.Slice)
+					if !isSl || sl.X != ssa.Value(ms) || sl.High != nil || sl.Low == nil {
+						continue
+					}
+					src := cp.Call.Args[1]
+					sub, isSub := sl.Low.(*ssa.BinOp)
+					if !isSub || sub.Op != token.SUB || sub.X != k {
+						continue
+					}
+					isLenSrc := func(v ssa.Value) bool { la := lenArg(v); return la != nil && w.Expr(la) == w.Expr(src) }
+					okN := isLenSrc(sub.Y)
+					if phi, isPhi := sub.Y.(*ssa.Phi); isPhi && len(phi.Edges) == 2 {
+						okN = (isLenSrc(phi.Edges[0]) && phi.Edges[1] == k) || (isLenSrc(phi.Edges[1]) && phi.Edges[0] == k)
+					}
+					if okN {
+						emV, emIns, emSrc = ms, cp, src
+					}
+				}
+			}
+		}
+	}
+	if emV == nil {
 		und("EM = leftPad(..., k)")
 		return
 	}
-	emx := w.Expr(em.Call.Args[0])
+	emx := w.Expr(emSrc)
+	// the exponentiation written as a statement on a fresh big.Int: m.Exp(c, e, N); m.Bytes()
+	if bc, ok := strip(emSrc).(*ssa.Call); ok && calleeName(bc) == "(*math/big.Int).Bytes" && len(bc.Call.Args) == 1 {
+		if a, isAlloc := strip(bc.Call.Args[0]).(*ssa.Alloc); isAlloc {
+			var exp *ssa.Call
+			others := 0
+			for _, r := range *a.Referrers() {
+				switch u := r.(type) {
+				case *ssa.Call:
+					switch {
+					case u == bc:
+					case calleeName(u) == "(*math/big.Int).Exp" && len(u.Call.Args) == 4 && u.Call.Args[0] == ssa.Value(a) && exp == nil:
+						exp = u
+					default:
+						others++
+					}
+				case *ssa.DebugRef:
+				default:
+					others++
+				}
+			}
+			if exp != nil && others == 0 && InstrDominates(exp, bc) {
+				emx = "call<(*math/big.Int).Bytes>(" + w.Expr(exp) + ")"
+			}
+		}
+	}
 	// either through the repository's public-key helper (checked below) or the exponentiation written in place
 	okEM := (strings.HasPrefix(emx, "call<(*math/big.Int).Bytes>(call<"+RepoMod+"/attestation/yubiattest.") && strings.Contains(emx, ",p0,call<(*math/big.Int).SetBytes>(alloc<math/big.Int>,p3))")) ||
 		emx == "call<(*math/big.Int).Bytes>(call<(*math/big.Int).Exp>(alloc<math/big.Int>,call<(*math/big.Int).SetBytes>(alloc<math/big.Int>,p3),call<math/big.NewInt>(conv<int64>(p0.E)),p0.N))"
-	c.Check(okEM, "R4.verifier", "verifier|EM is the signature raised with the device key", w.Pos(em.Pos()), "leftPad(encrypt(pub, SetBytes(sig)).Bytes(), k)", "the encoded message is not derived from the signature and the device key as expected: "+shortName(emx))
+	c.Check(okEM, "R4.verifier", "verifier|EM is the signature raised with the device key", w.Pos(emIns.Pos()), "leftPad(encrypt(pub, SetBytes(sig)).Bytes(), k)", "the encoded message is not derived from the signature and the device key as expected: "+shortName(emx))
 	// size guard
-	guard := f.Any(em.Block(), func(l Lit) bool {
+	guard := f.Any(emIns.Block(), func(l Lit) bool {
 		bin, ok := l.V.(*ssa.BinOp)
 		if !ok || bin.Op != token.LSS || l.Pol || bin.X != k {
 			return false
 		}
 		return L(bin.Y).equal(mk(11, map[string]int64{"len1": 1, "hLen": 1}))
 	})
-	c.Check(guard, "R4.verifier", "verifier|size guard k >= tLen + 11", w.Pos(em.Pos()), "must-fact not (k < len(prefix1)+hLen+11)", "the modulus-size guard (at least 8 padding bytes) is missing or different")
+	c.Check(guard, "R4.verifier", "verifier|size guard k >= tLen + 11", w.Pos(emIns.Pos()), "must-fact not (k < len(prefix1)+hLen+11)", "the modulus-size guard (at least 8 padding bytes) is missing or different")
 	// acceptance value: the value compared with 1 whose failure returns an error; the nil return is under ok == 1
 	var acc ssa.Value
 	for _, r := range w.MayBeNilReturns(fn) {
@@ -553,7 +618,7 @@ func checkVerifier(c *Ctx, fn *ssa.Function) {
 			n := calleeName(x)
 			if n == "crypto/subtle.ConstantTimeByteEq" || n == "crypto/subtle.ConstantTimeCompare" || n == "bytes.Equal" {
 				v := via
-				if loopPhi != nil && x.Block() != em.Block() && via == "and" {
+				if loopPhi != nil && x.Block() != emIns.Block() && via == "and" {
 					v = "loop"
 				}
 				leaves = append(leaves, leaf{x, v})
@@ -573,7 +638,7 @@ func checkVerifier(c *Ctx, fn *ssa.Function) {
 			return
 		}
 		ia, isIA := ld.X.(*ssa.IndexAddr)
-		if !isIA || ia.X != ssa.Value(em) {
+		if !isIA || ia.X != emV {
 			return
 		}
 		v, isK := intConst(l.call.Call.Args[1])
@@ -588,7 +653,7 @@ func checkVerifier(c *Ctx, fn *ssa.Function) {
 		}
 		for i := 0; i < 2; i++ {
 			sl, isSl := l.call.Call.Args[i].(*ssa.Slice)
-			if !isSl || sl.X != ssa.Value(em) || sl.Low == nil || sl.High == nil {
+			if !isSl || sl.X != emV || sl.Low == nil || sl.High == nil {
 				continue
 			}
 			return L(sl.Low), L(sl.High), l.call.Call.Args[1-i], true
@@ -646,7 +711,7 @@ func checkVerifier(c *Ctx, fn *ssa.Function) {
 				continue
 			}
 			// second admitted form: for _, b := range EM[2 : k-T-1] { ok &= b == 0xff }
-			if sl, isSl := ia.X.(*ssa.Slice); isSl && sl.X == ssa.Value(em) && sl.Max == nil && isForwardRangeIndex(ia.Index) {
+			if sl, isSl := ia.X.(*ssa.Slice); isSl && sl.X == emV && sl.Max == nil && isForwardRangeIndex(ia.Index) {
 				lowOK := false
 				if lo, isK := intConst(sl.Low); sl.Low != nil && isK && lo == 2 {
 					lowOK = true
@@ -681,7 +746,7 @@ func checkVerifier(c *Ctx, fn *ssa.Function) {
 				}
 				continue
 			}
-			if ia.X != ssa.Value(em) {
+			if ia.X != emV {
 				continue
 			}
 			iphi, isPhi := ia.Index.(*ssa.Phi)
@@ -737,14 +802,14 @@ func checkVerifier(c *Ctx, fn *ssa.Function) {
 	if loopPhi != nil {
 		entryOK := false
 		for _, e := range loopPhi.Edges {
-			if b, ok := e.(*ssa.BinOp); ok && b.Op == token.AND && b.Block() == em.Block() {
+			if b, ok := e.(*ssa.BinOp); ok && b.Op == token.AND && b.Block() == emIns.Block() {
 				entryOK = true
 			}
 		}
 		c.Check(entryOK, "R4.verifier", "verifier|loop accumulates onto the header checks", w.FnPos(fn), "the loop's initial acceptance value is the conjunction computed before it", "the padding loop does not start from the conjunction of the header/digest/identifier checks")
 	}
 	// helpers
-	checkVerifierHelpers(c, fn, info.Call.StaticCallee(), em.Call.StaticCallee())
+	checkVerifierHelpers(c, fn, info.Call.StaticCallee(), padFn)
 }
 
 // checkTPhi: T = phi{ tLen1 under prefix1ok == 1, tLen2 under prefix2ok == 1 (else), 0 otherwise }.
